@@ -66,7 +66,9 @@ PromoGen(p) ==
         ksq == { At(f, 5), At(f, 0) } \cup { s \in Sq : RankOf(s) = 6 /\ s # At(f, 6) }
                \cup { s \in Sq : FileOf(s) - f = RankOf(s) - 6 \/ FileOf(s) - f = 6 - RankOf(s) }
         base(fill) == [x \in Sq |-> IF RankOf(x) = 7 /\ FileOf(x) \in fronts THEN fill[FileOf(x)] ELSE "."]
-    IN \E k \in { k \in ksq : InSlice(k) }, s \in Sq, bk \in {At((f + 4) % 8, 3), At((f + 3) % 8, 6)},
+    \* 64 slices: the king by its index in ksq (mod 8), the slider by its square (mod 8)
+    IN \E k \in { k \in ksq : Slices = 1 \/ Cardinality({ y \in ksq : y < k }) % 8 = Slice % 8 },
+          s \in { s \in Sq : Slices = 1 \/ s % 8 = (Slice \div 8) % 8 }, bk \in {At((f + 4) % 8, 3), At((f + 3) % 8, 6)},
           fill \in [fronts -> {".", "n", "r"}] :
           p = Mk0(PlaceAll(base(fill), << <<"P", At(f, 6)>>, <<"K", k>>, <<sl, s>>, <<"k", bk>> >>), "w", {})
 PromoOK(p) == ValidPosition(p) /\ p.b[At(PromoFile, 6)] = "P"
@@ -109,7 +111,31 @@ MateOK(p) == ValidPosition(p)
              /\ \A z \in Sq : p.b[z] = "p" => RankOf(z) \in 1..6
              /\ Cardinality({ s \in Sq : p.b[s] = "k" }) = 1 /\ Cardinality({ s \in Sq : p.b[s] = "K" }) = 1
 
+(* ---- evade: the mover's king with enemy pieces and own defenders in its neighbourhood: checks of every kind
+   (single, double, by each piece kind), interpositions, captures of the checker, pinned defenders.
+   White to move; 1152 slices (Slice in 0..1151), each about ten thousand placements. *)
+Near2(k) == { x \in Sq : x # k /\ (LET df == FileOf(x) - FileOf(k)  dr == RankOf(x) - RankOf(k) IN df \in -2..2 /\ dr \in -2..2) }
+Idx(S, x) == Cardinality({ y \in S : y < x })
+EvadeGen(p) ==
+    LET kings == <<4, 27, 7>>
+        k == kings[(Slice % 3) + 1]
+        s1 == Slice \div 3
+        N == Near2(k)
+        akinds == <<"q", "r", "b", "n", "p">>
+        dkinds == <<"Q", "R", "B", "N", "P">>
+        bkind == <<"q", "r", "b", "n", "p", ".">>[((s1 \div 16) % 6) + 1]
+        asq == { x \in N : Idx(N, x) % 4 = s1 % 4 }
+        dsq == { x \in N : Idx(N, x) % 4 = (s1 \div 4) % 4 }
+        bsq == IF bkind = "." THEN {-1} ELSE { x \in N : Idx(N, x) % 2 = (s1 \div 96) % 2 }
+        far == IF k = 7 THEN 56 ELSE 63
+    IN \E ak \in { x \in 1..5 : Slices = 1 \/ x % 2 = (s1 \div 192) % 2 }, a \in asq, dk \in 1..5, d \in dsq, b \in bsq :
+          /\ a # d /\ b # a /\ b # d
+          /\ p = Mk0(PlaceAll(EmptyBoard, << <<"K", k>>, <<"k", far>>, <<akinds[ak], a>>, <<dkinds[dk], d>> >>
+                                          \o (IF b = -1 THEN <<>> ELSE << <<bkind, b>> >>)), "w", {})
+EvadeOK(p) == ValidPosition(p) /\ \A z \in Sq : p.b[z] \in {"P", "p"} => RankOf(z) \in 1..6
+
 Gen(p) == CASE Family = "ep" -> EpGen(p) /\ EpRootOK(p)
+            [] Family = "evade" -> EvadeGen(p) /\ EvadeOK(p)
             [] Family = "castle" -> CastleGen(p) /\ CastleOK(p)
             [] Family = "promo" -> PromoGen(p) /\ PromoOK(p)
             [] Family = "mate" -> MateGen(p) /\ MateOK(p)
@@ -125,6 +151,7 @@ Follow(m) ==
                           ELSE Len(path) = 1 /\ IsEp(pos, m)
       [] Family = "castle" -> path = <<>> /\ KindOf(pos.b[m.from]) \in {"K", "R"}
       [] Family = "promo" -> path = <<>> /\ KindOf(pos.b[m.from]) = "P"
+      [] Family = "evade" -> FALSE
       [] OTHER -> FALSE
 Next == \E m \in Legal(pos) : Follow(m) /\ pos' = Apply(pos, m) /\ path' = Append(path, Code(m)) /\ UNCHANGED <<rootpos, gen>>
 Spec == Init /\ [][Next]_vars
